@@ -529,6 +529,51 @@ def occurrence_lines(desc, m, pkg_dir, stats, skip_spaces=None):
     return out
 
 
+# ----------------------------------------------------------------------------- the cache-method correspondence
+
+_TEMPLATE_CACHE = {}
+
+
+def template_cache_programs():
+    """the templates of exporter.py as programs (tables.cache_method_tokens), read once per process"""
+    if not _TEMPLATE_CACHE:
+        from .. import tables
+        try:
+            _TEMPLATE_CACHE.update(tables._export_cache_methods())
+        except Exception as e:      # noqa: BLE001 - reported by the table extraction itself
+            _TEMPLATE_CACHE.update({"exportCacheNoParam": None, "exportCacheParam": None, "error": repr(e)})
+    return _TEMPLATE_CACHE
+
+
+def cache_method_lines(desc, pkg_dir):
+    """-> [(which template, tokens read off the generated method | 'unreadable: ..', where)] for every cache method
+    (a method `x` next to a method `_f_x`) of every generated space class"""
+    from .. import tables
+    out = []
+    for path, _sp in W.iter_spaces(desc):
+        try:
+            methods = exported_method_nodes(pkg_dir, path)
+        except Exception:       # noqa: BLE001
+            continue
+        for name, fn in methods.items():
+            if name.startswith("_f_") or ("_f_" + name) not in methods:
+                continue
+            has_params = len(fn.args.args) + len(fn.args.kwonlyargs) > 1 or fn.args.vararg or fn.args.kwarg
+            which = "exportCacheParam" if has_params else "exportCacheNoParam"
+            key = None
+            try:
+                if has_params:
+                    test = fn.body[0].test
+                    if isinstance(test, ast.UnaryOp):
+                        test = test.operand
+                    key = ast.unparse(test.left)
+                toks = tables.cache_method_tokens(fn, name, key)
+            except Exception as e:      # noqa: BLE001
+                toks = "unreadable: %s" % (e,)
+            out.append((which, toks, "%s.%s" % (".".join(path), name)))
+    return out
+
+
 # ----------------------------------------------------------------------------- the reference-value correspondence
 
 def _emit_class(node):
@@ -831,6 +876,7 @@ class Case:
         self.rsv = []
         self.rcp = []
         self.refval = []
+        self.cm = []
 
 
 def prepare(case, rng, tmp, stats, fixed_queries=None):
@@ -880,6 +926,10 @@ def prepare(case, rng, tmp, stats, fixed_queries=None):
             case.refval = refval_lines(desc, m, os.path.join(tmp, case.pkg))
         except Exception as e:      # noqa: BLE001
             stats["refval_extraction_failed"] = stats.get("refval_extraction_failed", 0) + 1
+        try:
+            case.cm = cache_method_lines(desc, os.path.join(tmp, case.pkg))
+        except Exception as e:      # noqa: BLE001
+            stats["cm_extraction_failed"] = stats.get("cm_extraction_failed", 0) + 1
         for qi, q in enumerate(case.queries):
             if "_levels" not in q and not (q.get("kw") or q.get("args")):
                 try:
@@ -1020,6 +1070,13 @@ def run_batch(ctx, cases, out, stats, samples, rngs=None, fixed=None):
         for case in live:
             rec = recs.get(case.idx, {"import": "ok", "results": []})
             compare(case, rec, out, stats, samples)
+            progs = template_cache_programs()
+            for which, toks, where in case.cm:
+                # the generated method is the template the theorems of Props/C15.lean section 6 speak about
+                stats["cm_methods"] = stats.get("cm_methods", 0) + 1
+                if progs.get(which) is not None and toks != progs[which]:
+                    out.disagree({"desc": case.desc, "line": "cm " + which, "where": where}, 0, toks, progs[which],
+                                 layer="export")
             for line, obs, where in case.rw:
                 driver_lines.append(line)
                 driver_meta.append(("rw", case, obs, where))
